@@ -840,7 +840,7 @@ class ArgumentParser(ParserDeprecations, ActionsContainer, ArgumentLinking, argp
                     self._dump_cleanup_actions(cfg, subparser._actions, dump_kwargs, prefix=prefix + key + ".")
                 chosen = cfg.get(action_dest)
                 section = cfg.get(prefix + chosen) if isinstance(chosen, str) else None
-                if not (isinstance(section, Namespace) and not section):
+                if not (isinstance(section, Namespace) and not any(True for _ in section.keys())):
                     # without settings the choice can not be inferred from the sections, so then it is kept
                     cfg.pop(action_dest, None)
             elif isinstance(action, ActionLink):
